@@ -64,6 +64,7 @@ type callSpec struct {
 	GateUs   int64  `json:"gate_us,omitempty"`  // gate handler: opened by the simulator at this simulated time after the run starts (0: never, until the end-of-run release)
 	DeadlineUs int64 `json:"dl_us,omitempty"`   // context deadline
 	CustomTimeoutMs int32 `json:"cto,omitempty"`
+	After    int    `json:"after,omitempty"` // 1-based index of a call that this one follows in the same goroutine (sequential use: pooled requests/responses are reused back to back)
 	CancelOnReply int `json:"cancel_on_reply,omitempty"` // the caller cancels this many canceller yields after the handler returned: the cancellation races with the arriving response
 	CancelAt int    `json:"cancel,omitempty"`   // a canceller goroutine cancels the context after this many of its own yields
 	FailFast bool   `json:"fail_fast,omitempty"`
@@ -104,6 +105,7 @@ type callsScenario struct {
 	MapPolicy  int `json:"map_policy"`
 	CondRandom bool `json:"cond_random"`
 	YieldUnlock bool `json:"yield_unlock,omitempty"` // unlocks are scheduling points as well
+	HoldPermille int `json:"hold_permille,omitempty"` // ... and a goroutine that just unlocked is sometimes held back for a while
 	MaxAdvanceExp int `json:"max_advance_exp"` // clock advances while goroutines are runnable are bounded by 1µs<<this
 	Race       bool `json:"race"`            // run with runtime scheduling (the -race configuration)
 	CryptoSeed uint64 `json:"crypto_seed"`
@@ -169,6 +171,9 @@ func callsGen(r *rand.Rand, params map[string]any) callsScenario {
 			switch r.IntN(6) {
 			case 0:
 				c.DeadlineUs = int64(1) << uint(r.IntN(24)) // 1µs .. 16s
+				if r.IntN(3) == 0 {
+					c.CustomTimeoutMs = int32(1 + r.IntN(3000)) // both: the shorter one rules
+				}
 			case 1:
 				c.CustomTimeoutMs = int32(1 + r.IntN(3000))
 			case 2:
@@ -184,6 +189,9 @@ func callsGen(r *rand.Rand, params map[string]any) callsScenario {
 		c.TL2 = r.IntN(3) == 0
 		if r.IntN(2) == 0 {
 			c.ActorID = int64(r.IntN(5)) * int64(1+r.IntN(1<<30))
+			if r.IntN(4) == 0 {
+				c.ActorID = -c.ActorID // actor ids are plain 64-bit values
+			}
 		}
 		if r.IntN(5) >= 2 { // 40% of the calls carry no request extra at all (the common case in practice: no wrapper is sent)
 			for _, b := range reqExtraBits {
@@ -207,13 +215,22 @@ func callsGen(r *rand.Rand, params map[string]any) callsScenario {
 		c.CtxExec = r.IntN(4) == 0
 		sc.Calls = append(sc.Calls, c)
 	}
+	for i := 1; i < len(sc.Calls); i++ {
+		// a third of the calls follow an earlier Do in the same goroutine, as a sequential caller does
+		if j := r.IntN(i); r.IntN(3) == 0 && !sc.Calls[j].Callback {
+			sc.Calls[i].After = j + 1
+			sc.Calls[i].StartUs = int64(r.IntN(2)) * int64(r.IntN(300))
+		}
+	}
 	if r.IntN(6) == 0 && len(sc.Calls) > 1 {
 		// two bursts separated by a long quiet period (longer than the servers' idle-worker collection and the
 		// clients' ping interval): whatever the servers and connections tidy up while idle must not change how the
 		// second burst is served
 		gap := int64(61_000_000 + r.IntN(60_000_000))
 		for i := len(sc.Calls) / 2; i < len(sc.Calls); i++ {
-			sc.Calls[i].StartUs += gap
+			if sc.Calls[i].After == 0 {
+				sc.Calls[i].StartUs += gap
+			}
 		}
 	}
 	if faulty && len(sc.Calls) >= 2 && r.IntN(5) == 0 {
@@ -221,13 +238,29 @@ func callsGen(r *rand.Rand, params map[string]any) callsScenario {
 		// client removes a dead idle connection while a caller is looking it up)
 		first, later := &sc.Calls[0], &sc.Calls[len(sc.Calls)-1]
 		first.Handler, first.StartUs, first.DeadlineUs, first.CustomTimeoutMs, first.CancelAt, first.GateUs = "echo", 0, 0, 0, 0, 0
-		later.Client, later.Server = first.Client, first.Server
+		later.Client, later.Server, later.After, first.After = first.Client, first.Server, 0, 0
 		later.StartUs = int64(50_000 + r.IntN(200_000))
 		at := later.StartUs // the same instant: the scheduler interleaves the teardown with the caller's look-up
 		if r.IntN(2) == 0 {
 			at = max(0, later.StartUs-int64(r.IntN(400))+int64(r.IntN(100)))
 		}
 		sc.Faults = append(sc.Faults, faultSpec{Kind: "reset", Target: r.IntN(2), AtUs: at})
+	}
+	if faulty && len(sc.Calls) >= 2 && r.IntN(8) == 0 {
+		// directed: the server goes away early, later calls queue on a connection that is waiting to reconnect,
+		// and the client is closed during that back-off: closing must make every queued call return
+		srv, cli := r.IntN(ns), r.IntN(nc)
+		t1 := int64(500 + r.IntN(5000))
+		sc.Faults = append(sc.Faults, faultSpec{Kind: "server_close", Target: srv, AtUs: t1})
+		for i := len(sc.Calls) / 2; i < len(sc.Calls); i++ {
+			c := &sc.Calls[i]
+			c.Client, c.Server, c.After, c.FailFast = cli, srv, 0, false
+			c.StartUs = t1 + int64(1000+r.IntN(100_000))
+			if r.IntN(2) == 0 {
+				c.DeadlineUs, c.CustomTimeoutMs, c.CancelAt, c.CancelOnReply = 0, 0, 0, 0
+			}
+		}
+		sc.Faults = append(sc.Faults, faultSpec{Kind: "client_close", Target: cli, AtUs: t1 + int64(150_000+r.IntN(3_000_000))})
 	}
 	if faulty {
 		nf := r.IntN(4)
@@ -259,6 +292,9 @@ func callsGen(r *rand.Rand, params map[string]any) callsScenario {
 	sc.MapPolicy = r.IntN(vrt.NumMapPolicies)
 	sc.CondRandom = r.IntN(2) == 0
 	sc.YieldUnlock = r.IntN(2) == 0
+	if sc.YieldUnlock && r.IntN(2) == 0 {
+		sc.HoldPermille = []int{2, 5, 20}[r.IntN(3)]
+	}
 	sc.CryptoSeed = r.Uint64()
 	sc.MaxAdvanceExp = 10 // ~1 ms: a fault-free run must not starve the process into its own timeouts
 	if faulty {
@@ -548,6 +584,7 @@ type callsRun struct {
 	load    []int64 // lower bound of the request memory held by executing handlers per server
 	maxRunning []int
 	pendingCalls int
+	windingDown bool // follow-up calls are not started any more
 	midPacketTimeouts atomic.Int32
 	lpStop  chan struct{} // closed when the run winds up: parked long-poll finishers go away
 	faultsFired int
@@ -1044,6 +1081,17 @@ func (r *callsRun) judge(cs *callState) {
 			if !a.IsSetCustomTimeoutMs() || a.CustomTimeoutMs <= 0 {
 				r.fail("C40/request-extra-changed", fmt.Sprintf("call %d has a deadline but the handler saw no positive CustomTimeoutMs", cs.idx))
 			}
+			// whatever the context deadline is, the timeout on the wire is the smaller of the two: never longer
+			// than the custom timeout the client set itself, never longer than the deadline the caller gave
+			if sp.CustomTimeoutMs > 0 && a.CustomTimeoutMs > sp.CustomTimeoutMs {
+				r.fail("C40/request-extra-changed", fmt.Sprintf("call %d: the client set CustomTimeoutMs %d, the handler saw %d (longer)", cs.idx, sp.CustomTimeoutMs, a.CustomTimeoutMs))
+			}
+			if sp.DeadlineUs > 0 && int64(a.CustomTimeoutMs) > (sp.DeadlineUs+999)/1000 {
+				r.fail("C40/request-extra-changed", fmt.Sprintf("call %d: the caller's deadline was %d µs away at most, the handler saw CustomTimeoutMs %d (longer)", cs.idx, sp.DeadlineUs, a.CustomTimeoutMs))
+			}
+			if sp.CustomTimeoutMs > 0 && sp.DeadlineUs > 0 {
+				r.sim.Count("probe.c40_custom_timeout_and_deadline_both_set")
+			}
 			a.ClearCustomTimeoutMs()
 			b.ClearCustomTimeoutMs()
 			if got, want := hex.EncodeToString(a.WriteTL1(nil)), hex.EncodeToString(b.WriteTL1(nil)); got != want {
@@ -1166,6 +1214,29 @@ func (r *callsRun) doCall(cs *callState) {
 	r.complete(cs, resp, err)
 	cl.PutResponse(resp)
 	cancel()
+	r.startFollowers(cs)
+}
+
+// startFollowers runs, one after the other in this goroutine, the calls that follow cs.
+func (r *callsRun) startFollowers(cs *callState) {
+	for _, f := range r.calls {
+		if f.spec.After != cs.idx+1 || f.idx <= cs.idx {
+			continue
+		}
+		r.mu.Lock()
+		if r.windingDown {
+			if !f.done {
+				f.done = true
+				r.pendingCalls--
+				r.sim.Count("probe.follow_up_call_skipped_at_wind_down")
+			}
+			r.mu.Unlock()
+			continue
+		}
+		r.mu.Unlock()
+		r.sim.Count("probe.follow_up_call_in_same_goroutine")
+		r.doCall(f)
+	}
 }
 
 // UnwrapOK returns the concrete client (the harness only creates ClientImpl).
@@ -1342,7 +1413,9 @@ func (r *callsRun) body(s simI) {
 	r.setPhase("calls")
 	for _, cs := range r.calls {
 		cs := cs
-		vrt.Go(fmt.Sprintf("call%d", cs.idx), func() { r.doCall(cs) })
+		if cs.spec.After == 0 || cs.spec.After > len(r.calls) || cs.spec.After-1 >= cs.idx {
+			vrt.Go(fmt.Sprintf("call%d", cs.idx), func() { r.doCall(cs) })
+		}
 		if (cs.spec.Handler == "gate" || cs.spec.Handler == "longpoll") && cs.spec.GateUs > 0 {
 			s.After(time.Duration(cs.spec.StartUs+cs.spec.GateUs)*time.Microsecond, func() { r.openGate(cs) })
 		}
@@ -1384,6 +1457,28 @@ func (r *callsRun) body(s simI) {
 		return cond()
 	}
 	allDone := func() bool { return r.pending() == 0 }
+	// "closing either side makes all pending calls return": a call that was pending on a client when that client's
+	// Close returned needs no cancellation or deadline of its own to come back
+	closedClientsDrained := func() bool {
+		r.mu.Lock()
+		defer r.mu.Unlock()
+		for _, cs := range r.calls {
+			if r.cliClosed[cs.spec.Client] && cs.cancel != nil && !cs.done {
+				return false
+			}
+		}
+		return true
+	}
+	if !wait("calls of closed clients", time.Minute, closedClientsDrained) && !s.Failed() {
+		r.mu.Lock()
+		for _, cs := range r.calls {
+			if r.cliClosed[cs.spec.Client] && cs.cancel != nil && !cs.done {
+				r.fail("C38/close-does-not-release-call", fmt.Sprintf("call %d (client %d -> server %d, handler %s, handled=%d) is still pending one simulated minute (fair schedule) after Close of its client returned", cs.idx, cs.spec.Client, cs.spec.Server, cs.spec.Handler, cs.handled))
+				break
+			}
+		}
+		r.mu.Unlock()
+	}
 	var lastStart int64
 	for _, cs := range r.calls {
 		lastStart = max(lastStart, cs.spec.StartUs)
@@ -1412,8 +1507,14 @@ func (r *callsRun) body(s simI) {
 			}
 			var cancels []toCancel
 			r.mu.Lock()
+			r.windingDown = true
 			for _, cs := range r.calls {
 				if cs.done {
+					continue
+				}
+				if cs.cancel == nil { // a follow-up call whose predecessor has not returned: it never started
+					cs.done = true
+					r.pendingCalls--
 					continue
 				}
 				srvGone := r.srvClosed[cs.spec.Server]
@@ -1464,6 +1565,9 @@ func (r *callsRun) body(s simI) {
 	}
 	// closing either side makes all pending calls return; then everything must wind down
 	close(r.lpStop)
+	r.mu.Lock()
+	r.windingDown = true
+	r.mu.Unlock()
 	r.setPhase("closing clients")
 	for i := range clients {
 		r.closeClient(i)
@@ -1515,7 +1619,7 @@ func callsExec(t *testing.T, sc callsScenario, tape *vrt.Tape, keepLog bool) (ou
 		return callsExecRace(t, r)
 	}
 	cfg := vrt.Config{Strategy: sc.Strategy, TimeAdvPct: sc.TimeAdvPct, PCTChanges: 3, PCTSpan: 3000, MaxSteps: 3000000, Horizon: 2 * time.Hour, KeepLog: keepLog,
-		PoolPolicy: sc.PoolPolicy, MapPolicy: sc.MapPolicy, CondRandom: sc.CondRandom, MaxAdvanceExp: sc.MaxAdvanceExp, YieldAfterUnlock: sc.YieldUnlock}
+		PoolPolicy: sc.PoolPolicy, MapPolicy: sc.MapPolicy, CondRandom: sc.CondRandom, MaxAdvanceExp: sc.MaxAdvanceExp, YieldAfterUnlock: sc.YieldUnlock, HoldPermille: sc.HoldPermille}
 	cfg.OnStep = func(s *vrt.Sim) {
 		r.mu.Lock()
 		defer r.mu.Unlock()
